@@ -844,9 +844,54 @@ def check_url_rules(res, rng):
     def npath(url):
         return os.path.normpath(ru.Url(str(url)).path)
 
-    for pwd in ('client', 'task'):
+    def ctx_view(c):
+        return {k: str(v) for k, v in c.items()}
+
+    _real_complete = m_sd.complete_url
+
+    class _Guard(object):
+        '''
+        contract on the real function: a call leaves the caller's context as it
+        was (Pilot and the stagers keep one context dict, holding `ru.Url`
+        objects, for all their directives), and asking the same question of
+        the same context twice gives the same answer
+        '''
+        @staticmethod
+        def complete_url(path, context, *a, **k):
+            before = ctx_view(context)
+            got    = _real_complete(path, context, *a, **k)
+            after  = ctx_view(context)
+            res.count('url_context_contract_evals')
+            if after != before:
+                diff = {key: (before[key], after[key]) for key in before
+                        if before[key] != after.get(key)}
+                res.violation('url-context-mutated',
+                              'complete_url(%r) changed its context: %r'
+                              % (path, diff), {'url': path, 'context': before})
+                # restore, so that one defect is reported once per call
+                for key, val in before.items():
+                    context[key] = type(context[key])(val) \
+                                   if not isinstance(context[key], str) else val
+            again = _real_complete(path, context, *a, **k)
+            if str(again) != str(got):
+                res.violation('url-not-repeatable',
+                              'complete_url(%r) -> %r, then %r'
+                              % (path, str(got), str(again)),
+                              {'url': path, 'context': before})
+            for key, val in before.items():
+                if str(context[key]) != val:
+                    context[key] = type(context[key])(val) \
+                                   if not isinstance(context[key], str) else val
+            return got
+
+    for pwd, as_url in (('client', False), ('task', False),
+                        ('client', True),  ('task', True)):
         ctx = dict(bases)
         ctx['pwd'] = bases[pwd]
+        if as_url:
+            # the form Pilot.stage_in / stage_out use: sandboxes as Url objects
+            ctx = {k: ru.Url(v) for k, v in ctx.items()}
+            res.count('url_contexts_with_url_objects')
         for schema in SCHEMAS:
             base = npath(bases[schema])
             rel  = rng.choice(['a.dat', 'd/a.dat', 'a b.dat', 'd/e/f'])
@@ -856,7 +901,7 @@ def check_url_rules(res, rng):
                                                 os.path.join(base, rel))):
                 res.count('url_rule_checks')
                 try:
-                    got = npath(m_sd.complete_url(spelled, ctx))
+                    got = npath(_Guard.complete_url(spelled, ctx))
                 except Exception as e:
                     got = repr(e)
                 if got != exp:
@@ -871,7 +916,7 @@ def check_url_rules(res, rng):
                              ('file://localhost/abs/y.dat', '/abs/y.dat')):
             res.count('url_rule_checks')
             try:
-                got = npath(m_sd.complete_url(spelled, ctx))
+                got = npath(_Guard.complete_url(spelled, ctx))
             except Exception as e:
                 got = repr(e)
             if got != exp:
@@ -882,7 +927,7 @@ def check_url_rules(res, rng):
         # other schemas are left alone
         res.count('url_rule_checks')
         other = 'https://host.net/p/q.dat'
-        got   = str(m_sd.complete_url(other, ctx))
+        got   = str(_Guard.complete_url(other, ctx))
         if got != other:
             res.violation('url-rule/other',
                           'complete_url(%r) -> %r' % (other, got),
